@@ -160,6 +160,25 @@ inductive Opt where
   | invalidValue
 deriving Repr, DecidableEq
 
+/-- One item of the option stream: a plain token, or `tech:optionfile=<path>` (synonyms `optionfile`,
+`option:file`).  `BasicSolver::UseOptionFile` opens the path and, if the stream is good, feeds every
+non-comment line to `ParseOptionString` (so the file's tokens are parsed *in place*, an offending one
+raises from inside); afterwards `if (!ifs.good() && !ifs.eof()) MP_RAISE("Failed to read option
+file …")`.  `inner` = the tokens that could be read (none for a missing path or a directory),
+`readFails` = the stream ended in a state that is neither good nor eof (missing path: failbit;
+directory, `/proc/self/mem`, I/O error: badbit). -/
+inductive OptItem where
+  | tok (o : Opt)
+  | optfile (inner : List Opt) (readFails : Bool)
+deriving Repr, DecidableEq
+
+/-- The token sequence `ParseOptionString` effectively sees: an option file is its readable tokens
+spliced in place, followed — if reading failed — by a raise of the `MP_RAISE` kind. -/
+def expandOpts : List OptItem → List Opt
+  | [] => []
+  | .tok o :: is => o :: expandOpts is
+  | .optfile inner rf :: is => inner ++ (if rf then [Opt.bad] else []) ++ expandOpts is
+
 /-- Header dimensions (`num_algebraic_cons`, `num_vars`). -/
 structure Dims where
   ncons : Nat
@@ -193,7 +212,7 @@ structure Scenario where
   /-- `-AMPL` immediately after the stub -/
   ampl : Bool
   /-- solver options in the order they are parsed (environment variables, then argv) -/
-  opts : List Opt
+  opts : List OptItem
   /-- `objno` given and larger than the header's number of objectives -/
   objnoTooBig : Bool
   dims : Dims
@@ -357,7 +376,7 @@ def ending (sc : Scenario) : Ending :=
   | some (st, r) => .raised ampl w1 st r
   | none =>
   -- OnHeader: handler made; options parsed
-  match parseOpts sc.opts w1 with
+  match parseOpts (expandOpts sc.opts) w1 with
   | (w, some r) => .raised ampl w .options r
   | (w, none) =>
   match faultBefore sc 5 with
